@@ -651,6 +651,10 @@ func c08funcBatch(c *fw.Check, shapes []c08func, base int) {
 		// every printer entry point below the module as the FIRST print of a freshly parsed module:
 		// Func.LLString, Block.LLString and Instruction/Terminator.LLString must give exactly the
 		// lines the module print gives (nothing may rely on Module.String having numbered first).
+		// (quick: on the explicit and the implicit-labels form; thorough: on all four)
+		if c.Quick() && form != "explicit" && form != "implicit-labels" {
+			continue
+		}
 		if m2, e2, p2 := parseTry(texts[form]); e2 == "" && p2 == "" {
 			for _, f := range m2.Funcs {
 				var fs string
@@ -662,6 +666,48 @@ func c08funcBatch(c *fw.Check, shapes []c08func, base int) {
 					c.Violation("first-print/func-differs/"+form+"/"+c08declOrDef(f), c08case{Form: form, What: "Func.LLString as the first print of a freshly parsed module differs from the function as the module print shows it", Text: fs, Got: fw.Trunc(c08segment(printed, f.Name()), 1500)})
 					break
 				}
+			}
+		}
+		// count-preserving edit of an already numbered function: every add is replaced IN PLACE by a
+		// freshly constructed equal instruction (unnamed ones carry no number yet), its uses are
+		// redirected through the operand slots; the module must print as before.
+		if m5, e5, p5 := parseTry(texts[form]); e5 == "" && p5 == "" {
+			var edited string
+			if p := fw.Try(func() {
+				for _, f := range m5.Funcs {
+					for _, b := range f.Blocks {
+						for i, inst := range b.Insts {
+							old, ok := inst.(*ir.InstAdd)
+							if !ok {
+								continue
+							}
+							n := ir.NewAdd(old.X, old.Y)
+							if !old.IsUnnamed() {
+								n.SetName(old.LocalName)
+							}
+							b.Insts[i] = n
+							for _, b2 := range f.Blocks {
+								for _, u := range b2.Insts {
+									for _, op := range u.Operands() {
+										if *op == value.Value(old) {
+											*op = n
+										}
+									}
+								}
+								for _, op := range b2.Term.Operands() {
+									if *op == value.Value(old) {
+										*op = n
+									}
+								}
+							}
+						}
+					}
+				}
+				edited = m5.String()
+			}); p != "" {
+				c.Violation("in-place-replacement/panics/"+form, c08case{Form: form, What: "replacing value instructions in place by equal fresh ones and printing panics: " + p})
+			} else if edited != printed {
+				c.Violation("in-place-replacement/text-differs/"+form, c08case{Form: form, What: "after replacing every add IN PLACE by an equal freshly constructed instruction (same number of instructions) the module prints differently: " + firstDiff(printed, edited)})
 			}
 		}
 		if m3, e3, p3 := parseTry(texts[form]); e3 == "" && p3 == "" {
